@@ -3,9 +3,14 @@
 Refuting events: the DFA tables returned by ``ppci.lang.tools.regex.compile`` (run with ppci's own
 ``pick_transition``) accept a string that ``re.fullmatch(pattern, s, re.DOTALL)`` rejects or the
 other way round; ``scan`` / ``Scanner.scan`` split a text differently from "repeatedly take the
-longest prefix that fullmatches"; ``parse``/``compile`` raise on a well-formed expression; the DFA
-construction does not finish within a generous budget of derivative steps (bounded liveness,
-counted by a hook on the ``derivative`` methods - wall clock is never used).
+longest prefix that fullmatches"; ``parse``/``compile`` raise on a well-formed expression; for the
+enumerated ASTs (<= 6 nodes, where every construction needs < 1000 derivative steps) the DFA
+construction does not finish within 60000 derivative steps (bounded liveness, counted by a hook
+on the ``derivative`` methods - wall clock is never used).  For random larger expressions no bound
+of a legitimate construction is known (similarity of derivatives is not language equivalence; the
+DFA can be hundreds of times larger than the minimal one), so a construction that exceeds the
+budget there is discarded and counted, not judged; a shard in which more than 5% of the
+constructions are discarded that way is inconclusive.
 
 Every expression is an AST (vlib/rxref.py) that is handed to ppci on two routes:
   parse   the pattern text, rendered with the minimal parentheses Python's re needs  -> compile(str)
@@ -38,6 +43,7 @@ ATOMS = [["lit", "a"], ["lit", "b"], ["dot"], ["cls", ["a", "b"]], ["cls", [["b"
 K_PARSER = "parser-concatenation-only-at-top-level"
 K_KEYERR = "compile-keyerror-when-no-dead-state"
 K_DIVERGE = "dfa-construction-diverges-alternation-not-aci"
+K_EXPLODE = "dfa-state-explosion-alternation-order-sensitive"
 
 RULE = ("exhaustive: every AST with <= N nodes (quick N=5, thorough N=6) over atoms a, b, '.', [ab], [b-c], '\\.' "
         "with unary * + ? and binary concatenation / alternation, rendered with minimal parentheses, on two routes "
@@ -313,6 +319,8 @@ class Mon:
         self.samples = []
         self.hashes = []
         self.inconclusive = []
+        self.compiles = 0
+        self.budget_discards = 0
 
     def bump(self, group, name, n=1):
         d = self.obs.setdefault(group, {})
@@ -332,6 +340,9 @@ class Mon:
             self.viol.append({"summary": summary, "case": case, "replay_spec": rs})
 
     def result(self):
+        if self.budget_discards > 3 and self.budget_discards * 20 > self.compiles:
+            self.inconclusive.append("%d of %d constructions outside the enumerated space hit the step budget and were not judged" % (
+                self.budget_discards, self.budget_discards + self.compiles))
         return {"evaluations": self.evals, "nontrivial_hashes": self.hashes, "observed": self.obs,
                 "discarded": self.disc, "samples": self.samples[:2], "violations": self.viol,
                 "inconclusive": self.inconclusive[:5]}
@@ -410,12 +421,26 @@ def check_single(mon, eng, t, strs, table_fn, member, routes, budget, seen_patte
             mon.violation("compile(%r) [%s route] raised %s" % (pattern, route, prog), case)
             continue
         if status == "budget":
+            if not enumerated:
+                # Outside the enumerated space there is no known bound for a legitimate construction:
+                # similarity-based derivatives may need hundreds of times more states than the minimal
+                # DFA (seen: 9862 states for a 33-state language).  Not judged, only counted.
+                mon.discard("step-budget-exceeded:" + route)
+                mon.budget_discards += 1
+                continue
             mon.evals += 1
             mon.violation("compile(%r) [%s route]: DFA construction not finished after %d derivative steps "
-                          "(reference automaton has %d positions)" % (pattern, route, prog, orc.g.n), case)
+                          "(an AST of <= 6 nodes needs < 1000; reference automaton has %d positions)" % (
+                              pattern, route, prog, orc.g.n), case)
             continue
         nstates = len(prog[0])
+        mon.compiles += 1
         mon.bump("dfa_states", str(min(nstates, 12)) if nstates < 12 else "12+")
+        steps = eng.steps[0]
+        mon.bump("derivative_steps_enumerated" if enumerated else "derivative_steps_random", "<1k" if steps < 1000 else "<10k" if steps < 10000 else "<60k" if steps < 60000 else ">=60k")
+        ref = orc.g.subset_states() + 1
+        mon.bump("states_vs_reference_subset_dfa", "<=1x" if nstates <= ref else "<=2x" if nstates <= 2 * ref
+                 else "<=4x" if nstates <= 4 * ref else "<=10x" if nstates <= 10 * ref else ">10x")
         op_stats(mon, t)
         # acceptance
         states = eng.run_dfa(prog, strs)
@@ -662,10 +687,9 @@ def check_tokens(mon, eng, asts, names, texts, routes, enumerated=None):
             else:
                 vec = eng.RR.ExpressionVector([(n, eng.build(t)) for n, t in zip(names, asts)])
                 scanner = eng.SC.Scanner(eng.R.compile(vec))
-        except Budget:
-            mon.evals += 1
-            mon.violation("scanner for %r [%s route]: DFA construction not finished after %d derivative steps" % (
-                pats, route, BUDGET_RANDOM), case)
+        except Budget:  # not judged, see check_single
+            mon.discard("step-budget-exceeded:tokens-" + route)
+            mon.budget_discards += 1
             continue
         except Exception as e:  # noqa
             mon.evals += 1
@@ -673,6 +697,7 @@ def check_tokens(mon, eng, asts, names, texts, routes, enumerated=None):
             continue
         finally:
             eng.limit[0] = 1 << 60
+        mon.compiles += 1
         mon.bump("tokens", "scanners")
         mon.bump("tokens", "route_" + route)
         fns = [(n, o.member) for n, o in zip(names, orcs)]
@@ -786,4 +811,21 @@ def probe_diverge():
     return None if eng.accepts(prog, "aaa") and not eng.accepts(prog, "ab") else "'a*a*' wrong on 'aaa'/'ab'"
 
 
-PROBES = {K_PARSER: probe_parser, K_KEYERR: probe_keyerror, K_DIVERGE: probe_diverge}
+EXPLODE_WITNESS = ["plus", ["plus", ["cat", ["cat", ["cat", ["cls", ["a", "b"]], ["cls", ["b", "x"]]], ["opt", ["lit", "b"]]], ["dot"]]]]
+
+
+def probe_explode():
+    eng = Engine()
+    pattern = rxref.render(EXPLODE_WITNESS)          # (([ab][bx]b?.)+)+
+    ref = rxref.Glushkov(EXPLODE_WITNESS).subset_states() + 1
+    st, prog = eng.compile(pattern, 5000000)
+    if st != "ok":
+        return "compile(%r) %s %s" % (pattern, st, prog)
+    n = len(prog[0])
+    if n > 4 * ref:
+        return ("compile(%r) builds %d states in %d derivative steps, the subset construction of the same expression "
+                "has %d (r|s and s|r, (rs)t and r(st) are different states)" % (pattern, n, eng.steps[0], ref - 1))
+    return None
+
+
+PROBES = {K_PARSER: probe_parser, K_KEYERR: probe_keyerror, K_DIVERGE: probe_diverge, K_EXPLODE: probe_explode}
